@@ -97,48 +97,71 @@ func run01(n, fam int, x int64) int64 {
 	panic("arity")
 }
 
-func run2(n int, l []int64) []int64 {
+func build2(n int, f func(int64) func([]int64) []int64) func([]int64) []int64 {
 	switch n {
 	case 2:
-		return pipe.Pipe(f2(1), f2(2))(l)
+		return pipe.Pipe(f(1), f(2))
 	case 3:
-		return pipe.Pipe3(f2(1), f2(2), f2(3))(l)
+		return pipe.Pipe3(f(1), f(2), f(3))
 	case 4:
-		return pipe.Pipe4(f2(1), f2(2), f2(3), f2(4))(l)
+		return pipe.Pipe4(f(1), f(2), f(3), f(4))
 	case 5:
-		return pipe.Pipe5(f2(1), f2(2), f2(3), f2(4), f2(5))(l)
+		return pipe.Pipe5(f(1), f(2), f(3), f(4), f(5))
 	case 6:
-		return pipe.Pipe6(f2(1), f2(2), f2(3), f2(4), f2(5), f2(6))(l)
+		return pipe.Pipe6(f(1), f(2), f(3), f(4), f(5), f(6))
 	case 7:
-		return pipe.Pipe7(f2(1), f2(2), f2(3), f2(4), f2(5), f2(6), f2(7))(l)
+		return pipe.Pipe7(f(1), f(2), f(3), f(4), f(5), f(6), f(7))
 	case 8:
-		return pipe.Pipe8(f2(1), f2(2), f2(3), f2(4), f2(5), f2(6), f2(7), f2(8))(l)
+		return pipe.Pipe8(f(1), f(2), f(3), f(4), f(5), f(6), f(7), f(8))
 	case 9:
-		return pipe.Pipe9(f2(1), f2(2), f2(3), f2(4), f2(5), f2(6), f2(7), f2(8), f2(9))(l)
+		return pipe.Pipe9(f(1), f(2), f(3), f(4), f(5), f(6), f(7), f(8), f(9))
 	case 10:
-		return pipe.Pipe10(f2(1), f2(2), f2(3), f2(4), f2(5), f2(6), f2(7), f2(8), f2(9), f2(10))(l)
+		return pipe.Pipe10(f(1), f(2), f(3), f(4), f(5), f(6), f(7), f(8), f(9), f(10))
 	case 11:
-		return pipe.Pipe11(f2(1), f2(2), f2(3), f2(4), f2(5), f2(6), f2(7), f2(8), f2(9), f2(10), f2(11))(l)
+		return pipe.Pipe11(f(1), f(2), f(3), f(4), f(5), f(6), f(7), f(8), f(9), f(10), f(11))
 	case 12:
-		return pipe.Pipe12(f2(1), f2(2), f2(3), f2(4), f2(5), f2(6), f2(7), f2(8), f2(9), f2(10), f2(11), f2(12))(l)
+		return pipe.Pipe12(f(1), f(2), f(3), f(4), f(5), f(6), f(7), f(8), f(9), f(10), f(11), f(12))
 	case 13:
-		return pipe.Pipe13(f2(1), f2(2), f2(3), f2(4), f2(5), f2(6), f2(7), f2(8), f2(9), f2(10), f2(11), f2(12), f2(13))(l)
+		return pipe.Pipe13(f(1), f(2), f(3), f(4), f(5), f(6), f(7), f(8), f(9), f(10), f(11), f(12), f(13))
 	case 14:
-		return pipe.Pipe14(f2(1), f2(2), f2(3), f2(4), f2(5), f2(6), f2(7), f2(8), f2(9), f2(10), f2(11), f2(12), f2(13), f2(14))(l)
+		return pipe.Pipe14(f(1), f(2), f(3), f(4), f(5), f(6), f(7), f(8), f(9), f(10), f(11), f(12), f(13), f(14))
 	case 15:
-		return pipe.Pipe15(f2(1), f2(2), f2(3), f2(4), f2(5), f2(6), f2(7), f2(8), f2(9), f2(10), f2(11), f2(12), f2(13), f2(14), f2(15))(l)
+		return pipe.Pipe15(f(1), f(2), f(3), f(4), f(5), f(6), f(7), f(8), f(9), f(10), f(11), f(12), f(13), f(14), f(15))
 	case 16:
-		return pipe.Pipe16(f2(1), f2(2), f2(3), f2(4), f2(5), f2(6), f2(7), f2(8), f2(9), f2(10), f2(11), f2(12), f2(13), f2(14), f2(15), f2(16))(l)
+		return pipe.Pipe16(f(1), f(2), f(3), f(4), f(5), f(6), f(7), f(8), f(9), f(10), f(11), f(12), f(13), f(14), f(15), f(16))
 	case 17:
-		return pipe.Pipe17(f2(1), f2(2), f2(3), f2(4), f2(5), f2(6), f2(7), f2(8), f2(9), f2(10), f2(11), f2(12), f2(13), f2(14), f2(15), f2(16), f2(17))(l)
+		return pipe.Pipe17(f(1), f(2), f(3), f(4), f(5), f(6), f(7), f(8), f(9), f(10), f(11), f(12), f(13), f(14), f(15), f(16), f(17))
 	case 18:
-		return pipe.Pipe18(f2(1), f2(2), f2(3), f2(4), f2(5), f2(6), f2(7), f2(8), f2(9), f2(10), f2(11), f2(12), f2(13), f2(14), f2(15), f2(16), f2(17), f2(18))(l)
+		return pipe.Pipe18(f(1), f(2), f(3), f(4), f(5), f(6), f(7), f(8), f(9), f(10), f(11), f(12), f(13), f(14), f(15), f(16), f(17), f(18))
 	case 19:
-		return pipe.Pipe19(f2(1), f2(2), f2(3), f2(4), f2(5), f2(6), f2(7), f2(8), f2(9), f2(10), f2(11), f2(12), f2(13), f2(14), f2(15), f2(16), f2(17), f2(18), f2(19))(l)
+		return pipe.Pipe19(f(1), f(2), f(3), f(4), f(5), f(6), f(7), f(8), f(9), f(10), f(11), f(12), f(13), f(14), f(15), f(16), f(17), f(18), f(19))
 	case 20:
-		return pipe.Pipe20(f2(1), f2(2), f2(3), f2(4), f2(5), f2(6), f2(7), f2(8), f2(9), f2(10), f2(11), f2(12), f2(13), f2(14), f2(15), f2(16), f2(17), f2(18), f2(19), f2(20))(l)
+		return pipe.Pipe20(f(1), f(2), f(3), f(4), f(5), f(6), f(7), f(8), f(9), f(10), f(11), f(12), f(13), f(14), f(15), f(16), f(17), f(18), f(19), f(20))
 	}
 	panic("arity")
+}
+
+func run2(n int, l []int64) []int64 { return build2(n, f2)(l) }
+
+// family 4: stage (n+1)/2, when reached in the outermost call, calls the very pipeline it belongs to on another
+// argument and records the length of what came back; every stage appends its number (family 2). A pipeline value
+// is a function: calling it from inside one of its own stages must not disturb the call in progress.
+func run4(n int, l []int64) []int64 {
+	var p func([]int64) []int64
+	depth := 0
+	k := int64((n + 1) / 2)
+	p = build2(n, func(i int64) func([]int64) []int64 {
+		return func(x []int64) []int64 {
+			if i == k && depth == 0 {
+				depth++
+				r := p([]int64{100})
+				depth--
+				return append(append([]int64{}, x...), i, int64(len(r)))
+			}
+			return append(append([]int64{}, x...), i)
+		}
+	})
+	return p(l)
 }
 
 func run3(n int, l any) (res []int64) {
@@ -200,7 +223,7 @@ func main() {
 	enc := json.NewEncoder(os.Stdout)
 	for n := 2; n <= 20; n++ {
 		for k := 0; k < per; k++ {
-			for fam := 0; fam <= 3; fam++ {
+			for fam := 0; fam <= 4; fam++ {
 				c := Case{Arity: n, Fam: fam}
 				switch fam {
 				case 0:
@@ -228,6 +251,13 @@ func main() {
 						c.Input = []int64{-7}
 						c.Observed = run3(n, []int64{-7})
 					}
+				case 4:
+					l := []int64{}
+					for j := 0; j < k%3; j++ {
+						l = append(l, -rng.Int63n(100))
+					}
+					c.Input = l
+					c.Observed = run4(n, l)
 				case 2:
 					l := []int64{}
 					for j := 0; j < k%3; j++ {
